@@ -466,3 +466,13 @@ SPECS["C04"]["queries"] += [
 ]
 SPECS["C04"]["encodes"] += ["gvt/gvt.c:gvt_phase_run", "gvt_node_phase_run", "gvt/gvt.h:gvt_remote_msg_send"]
 SPECS["C04"]["assumptions"] += ["node-level query: rank 1 is a passive receiver; the MPI collectives are harness models (sum-scatter returns this rank's column; all-reduce-min includes every old-colour message, which the receiver has received before contributing, by the colour protocol); completion times arbitrary"]
+
+SPECS["C20"] = dict(
+    level="model_checking",
+    encodes=["lp/process.c:send_anti_messages", "do_rollback", "silent_execution", "process_msg", "checkpoint_take (statistics calls)", "log/stats.h counters as used by the runtime"],
+    assumptions=PROC_ASSUME + ["component level (b) only: the per-thread counters are incremented exactly once per forward execution, rollback, undone event, silent re-execution, checkpoint and anti-message (stats_take is a counting stub with the semantics of stats.c: add to the current record)",
+                               "the writer/format part (a) (stats.c + file.c over an in-memory FILE model) ran out of memory in propositional reduction (11 GB for one record) and is NOT claimed; the shutdown race on record counts (F6) is not checked"],
+    outside=["file layout / parsing (a)", "equal record counts under the shutdown race (c)", "multi-node assembly"],
+    level_text="component level: each real operation of lp/process.c changes the statistics counters by exactly what happened (hence undone <= forward cumulatively); the binary file layout is NOT covered",
+    queries=[P_L4, P_L3, P_STEP0],
+)
